@@ -22,7 +22,8 @@ META = {
 }
 
 TUS = ["src/gboost/early_stopping.cpp", "src/gboost/model.cpp", "src/gboost/result.cpp", "src/machine/result.cpp", "src/machine/stats.cpp",
-       "src/gboost/util.cpp", "src/linear.cpp"]
+       "src/gboost/util.cpp", "src/linear.cpp", "src/wlearner/table.cpp", "src/wlearner/affine.cpp", "src/wlearner/single.cpp", "src/wlearner/util.cpp",
+       "src/wlearner.cpp"]
 
 
 def rule_early_stopping(F, R):
@@ -391,4 +392,7 @@ def run(ctx):
     rule_fold_average(F, R)
     rule_slots(F, R)
     rule_final_stats(F, R)
+    # the stored fold models and the fold-averaged final model are compacted with wlearner::merge: merging must preserve the sum
+    from . import c10
+    c10.rule_merge(F, R, rule="R-C11-8")
     c11_stats.rule_stats_table(F, R, "R-C11-6")
